@@ -77,7 +77,7 @@ func VX_C01_MetaAcrossRequests(args []int) {
 }
 
 // VX_C07_ModifySocket: a session that was given an id keeps it (and its single
-// index entry) when its socket is replaced. args: setID(0/1)
+// index entry) when its socket is replaced. args: setID(0/1)[, protoOnly(0/1)]
 func VX_C07_ModifySocket(args []int) {
 	var log []string
 	ren := &vxRenamer{to: "user-1"}
@@ -98,7 +98,16 @@ func VX_C07_ModifySocket(args []int) {
 	}
 	vxAssert(s.ID() == want && p.CountSession() == 1, "listed once under its id")
 	c2 := newVxConn("srv:1", "cli:1")
-	s.(*session).ModifySocket(func(conn net.Conn) (net.Conn, ProtoFunc) { return c2, nil })
+	if len(args) > 1 && args[1] == 1 {
+		// only the protocol is replaced ("If modifiedConn!=nil, reset the net.Conn"): the connection stays
+		s.(*session).ModifySocket(func(conn net.Conn) (net.Conn, ProtoFunc) { return nil, socket.RawProtoFunc })
+		vxWaitIdle()
+		vxAssert(s.Health() && s.(*session).getConn() == net.Conn(c), "a session whose protocol is replaced keeps its connection")
+		st := s.Push("/p", []byte("x"))
+		vxAssert(st.OK() && c.nWrites() == 1, "and keeps working on it")
+	} else {
+		s.(*session).ModifySocket(func(conn net.Conn) (net.Conn, ProtoFunc) { return c2, nil })
+	}
 	vxWaitIdle()
 	vxAssert(s.ID() == want, "id kept when the socket is replaced")
 	got, ok := p.GetSession(want)
